@@ -38,6 +38,30 @@ class M:
     factories = None
 
 
+_NODE_COUNTER = [0]
+
+
+def prepare(seed_import=12345):
+    """to be called after src.* was purged from sys.modules and before anything of src is imported: makes runs
+    reproducible (word pool sampled with the global RNG at import of src.utils; identity-hashed IR nodes)"""
+    import importlib
+    _pyrandom.seed(seed_import)
+    if not sys.argv or not sys.argv[0]:
+        sys.argv = ['c09']
+    node = importlib.import_module('src.ir.node')
+
+    def _hash(self):
+        d = self.__dict__
+        try:
+            return d['_vh']
+        except KeyError:
+            _NODE_COUNTER[0] += 1
+            d['_vh'] = _NODE_COUNTER[0]
+            return _NODE_COUNTER[0]
+    node.Node.__hash__ = _hash      # identity __eq__ untouched: only the iteration order of node sets is fixed
+    bind()
+
+
 def bind():
     import importlib
     M.tp = importlib.import_module('src.ir.types')
@@ -282,7 +306,12 @@ class Table:
             return True                                             # bottom
         if t == ('N',):
             return False
+        if s[0] == 'B' and t[0] == 'B' and s[1] == t[1]:
+            # a primitive type and its boxed class: one type for the IR (==), two declarations (supertypes differ)
+            raise Undecided('primitive type against its boxed class')
         if (s[0] == 'B' and s[2]) or (t[0] == 'B' and t[2]):
+            if s[0] == 'V':
+                return s[2] is not None and self.sub(s[2], t)
             return False                                            # primitive types: related to themselves only
         if t == self.top:
             return True                                             # top
@@ -512,3 +541,804 @@ def check_irrelevant(table, T, r):
     elif above:
         bad.append(('irrelevant:supertype-returned:%s' % kind, dict(d, expected='not a supertype', actual='supertype')))
     return bad, 0
+
+
+# =====================================================================================================================
+# 4. random choices inside the searches: path enumerator installed as utils.random.choice
+# =====================================================================================================================
+class Chooser:
+    """modes: 'pass' (the tree's own generator, indices recorded), 'path' (follow self.path, then 0 = depth-first
+    enumeration, or a private RNG when self.rnd is set)"""
+
+    def __init__(self, R):
+        self.R = R
+        self.mode = 'pass'
+        self.path = ()
+        self.rnd = None
+        self.trace = []
+
+    def start(self, path=(), rnd=None):
+        self.mode = 'path'
+        self.path = tuple(path)
+        self.rnd = rnd
+        self.trace = []
+
+    def record(self):
+        self.mode = 'pass'
+        self.trace = []
+
+    def __call__(self, seq):
+        n = len(seq)
+        if n == 0:
+            raise IndexError('Cannot choose from an empty sequence')
+        k = len(self.trace)
+        if self.mode == 'pass':
+            i = self.R.r.randrange(n)
+        elif k < len(self.path):
+            i = self.path[k] % n
+        elif self.rnd is not None:
+            i = self.rnd.randrange(n)
+        else:
+            i = 0
+        self.trace.append((i, n))
+        return seq[i]
+
+
+def install_chooser():
+    R = M.utils.random
+    ch = Chooser(R)
+    R.choice = ch
+    M.chooser = ch
+
+
+def all_paths(call, cap, extra=0, rnd=None):
+    """yield (path, result, exception) for every random path of call() depth-first, at most `cap`; if the cap is hit,
+    `extra` further paths drawn with rnd.  The last item is ('end', exhaustive, None)."""
+    ch = M.chooser
+    path = []
+    count = 0
+    exhaustive = True
+    while True:
+        ch.start(path)
+        try:
+            res, exc = call(), None
+        except Undecided:
+            raise
+        except Exception as e:      # an internal failure is not a return value (C18); counted, not judged here
+            res, exc = None, e
+        trace = ch.trace
+        yield [i for i, _ in trace], res, exc
+        count += 1
+        k = len(trace) - 1
+        while k >= 0 and trace[k][0] + 1 >= trace[k][1]:
+            k -= 1
+        if k < 0:
+            break
+        path = [i for i, _ in trace[:k]] + [trace[k][0] + 1]
+        if count >= cap:
+            exhaustive = False
+            break
+    if not exhaustive:
+        for _ in range(extra):
+            ch.start((), rnd)
+            try:
+                res, exc = call(), None
+            except Exception as e:
+                res, exc = None, e
+            yield [i for i, _ in ch.trace], res, exc
+    ch.record()
+    yield 'end', exhaustive, None
+
+
+# =====================================================================================================================
+# 5. part A: hand-written class tables
+# =====================================================================================================================
+SUB_FLAGS = [dict(include_self=i, concrete_only=c, ignore_variance=v)
+             for i in (False, True) for c in (False, True) for v in (False, True)]
+
+
+def fixed_tables(lang):
+    tp = M.tp
+    f = M.factories[lang]
+    Any, Number, Integer, String = f.get_any_type(), f.get_number_type(), f.get_integer_type(), f.get_string_type()
+    Long, Short = f.get_long_type(), f.get_short_type()
+    S, TC, TP, W = tp.SimpleClassifier, tp.TypeConstructor, tp.TypeParameter, tp.WildCardType
+    CO, CONTRA = tp.Covariant, tp.Contravariant
+
+    def out(t):
+        return W(t, CO)
+
+    def inn(t):
+        return W(t, CONTRA)
+    A = S('A')
+    B = S('B', [A])
+    C = S('C', [B])
+    D = S('D', [A])
+    E = S('E', [Any])
+    F = S('F', [E])
+    tabs = []
+
+    def tvars(*bounds):
+        return [TP('E%d' % i, bound=b) for i, b in enumerate(bounds)]
+
+    # 1 plain hierarchy
+    X0 = TP('X0', bound=A)
+    tabs.append(dict(name='simple', types=[A, B, C, D, E, F, Any, Number, Integer, String],
+                     queries=[A, B, C, D, E, F, Number, Integer, String, Any] +
+                     tvars(None, A, B, Any, Number, X0, E)))
+    # 2 invariant generic classes, generic subclass of an instantiation
+    G = TC('G', [TP('T')])
+    T2 = TP('T')
+    H = TC('H', [T2], [G.new([T2])])
+    HB = S('HB', [G.new([B])])
+    K = TC('K', [TP('T')], [G.new([B])])
+    Y = TC('Yardstick', [TP('T')])
+    Mr = TC('Marred', [TP('T')], [Y.new([Long])])
+    tabs.append(dict(name='generic', types=[A, B, C, G, H, HB, K, Y, Mr, Any, String, Integer, Long, Short],
+                     queries=[G.new([A]), G.new([B]), G.new([C]), G.new([String]), G.new([out(B)]), G.new([inn(B)]),
+                              G.new([out(A)]), G.new([inn(C)]), H.new([B]), H.new([out(B)]), K.new([A]),
+                              K.new([String]), HB, A, B, Y.new([Long]), Y.new([Short]), Y.new([out(Long)]),
+                              G.new([G.new([B])]), G.new([out(G.new([B]))]), G.new([H.new([B])]),
+                              G.new([out(G.new([out(B)]))]), G.new([W()])] +
+                     tvars(G.new([B]), Y.new([Long]), H.new([B]), G.new([out(B)]), HB)))
+    # 3 declaration-site variance, generic subclass of a plain class
+    Pco = TC('Pco', [TP('T', CO)])
+    Pin = TC('Pin', [TP('T', CONTRA)])
+    X4 = TP('X', CO)
+    Qco = TC('Qco', [X4], [Pco.new([X4])])
+    Gen = TC('Gen', [TP('X')], [B])
+    GenA = TC('GenA', [TP('X')], [A])
+    tabs.append(dict(name='variance', types=[A, B, C, D, Pco, Pin, Qco, Gen, GenA, Any, Number, Integer, String],
+                     queries=[Pco.new([A]), Pco.new([B]), Pco.new([C]), Pin.new([A]), Pin.new([B]), Pin.new([C]),
+                              Pco.new([Pco.new([B])]), Pco.new([Pin.new([B])]), Pin.new([Pco.new([B])]),
+                              Qco.new([B]), Pco.new([Number]), Pco.new([Any]), Pin.new([Integer]),
+                              Pin.new([Number]), A, B, Gen.new([String]), Pco.new([out(B)]),
+                              Pco.new([Gen.new([String])]), Pin.new([inn(B)])] +
+                     tvars(Pco.new([B]), Pin.new([B]), Gen.new([String]))))
+    # 4 bounded type parameters
+    N = TC('N', [TP('T', bound=A)])
+    T1 = TP('T1')
+    M2 = TC('M2', [T1, TP('T2', bound=T1)])
+    T1o = TP('T1', CO)
+    M3 = TC('M3', [T1o, TP('T2', bound=T1o)])
+    Q = TC('Q', [TP('T', bound=G.new([A]))])
+    Xr = TP('X')
+    R = TC('R', [Xr, TP('Y', bound=G.new([Xr]))])
+    Nn = TC('Nn', [TP('T', bound=Number)])
+    NB = S('NB', [N.new([B])])
+    GA = S('GA', [G.new([A])])
+    tabs.append(dict(name='bounds', types=[A, B, C, G, H, GA, N, M2, M3, Q, R, Nn, NB, Any, Number, Integer, String],
+                     queries=[N.new([A]), N.new([B]), N.new([out(B)]), M2.new([A, A]), M2.new([A, B]),
+                              M2.new([B, C]), M2.new([A, out(B)]), M2.new([A, inn(B)]), M2.new([out(A), B]),
+                              M3.new([A, A]), M3.new([A, B]), M3.new([A, inn(A)]), Q.new([G.new([A])]),
+                              Q.new([H.new([A])]), Q.new([GA]), R.new([A, G.new([A])]), R.new([B, H.new([B])]),
+                              R.new([A, GA]), Nn.new([Number]), Nn.new([Integer]), Nn.new([out(Number)]), NB] +
+                     tvars(N.new([B]), M2.new([A, B]))))
+    # 5 nested arguments, type variables in scope (name collisions with class parameters)
+    A1 = TC('A1', [TP('X')])
+    Gy = TC('G', [TP('Y')])
+    Tt = TP('T')
+    B1 = TC('B1', [Tt], [A1.new([Gy.new([Tt])])])
+    Tu = TP('T')
+    B2 = TC('B2', [Tu], [A1.new([Tu])])
+    Foo = TC('Foo', [TP('U'), TP('V')])
+    Tb = TP('T')
+    Bar = TC('Bar', [Tb], [Foo.new([Integer, Tb])])
+    Tf = TP('T')
+    Sf = TP('S', bound=A)
+    tabs.append(dict(name='nested', types=[A, B, A1, Gy, B1, B2, Foo, Bar, Tf, Sf, Any, Integer, String],
+                     queries=[A1.new([Gy.new([Tf])]), A1.new([Tf]), A1.new([Gy.new([String])]), A1.new([String]),
+                              Foo.new([Integer, Tf]), Foo.new([Integer, String]), A1.new([Sf]), Tf, Sf,
+                              Gy.new([Tf]), A1.new([out(Gy.new([String]))]), Foo.new([out(A), inn(B)])] +
+                     tvars(A1.new([String]), Foo.new([Integer, String]))))
+    # 6 arrays, function types, primitives
+    Arr = f.get_array_type()
+    F1 = f.get_function_type(1)
+    prims = list(getattr(f, 'get_primitive_types', lambda: [])())
+    tabs.append(dict(name='arrays', types=[A, B, C, Any, Number, Integer, String, Arr, F1] + prims,
+                     queries=[Arr.new([A]), Arr.new([B]), Arr.new([String]), Arr.new([Integer]), Arr.new([out(A)]),
+                              Arr.new([Arr.new([B])]), F1.new([A, B]), F1.new([B, A]), F1.new([Integer, String]),
+                              Number, Integer] + prims[:3] + tvars(Arr.new([A]), Integer)))
+    # 7 class declarations in the type list (as the mutation passes them), non-regular classes
+    ast = M.ast
+
+    def cls(name, supers=(), kind=None, tps=()):
+        return ast.ClassDeclaration(name, [ast.SuperClassInstantiation(s, None) for s in supers],
+                                    class_type=kind, fields=[], functions=[], type_parameters=list(tps))
+    dA = cls('A')
+    dB = cls('B', [A])
+    dI = cls('I', kind=ast.ClassDeclaration.INTERFACE)
+    dJ = cls('J', [dI.get_type()])
+    dAb = cls('Ab', [A], kind=ast.ClassDeclaration.ABSTRACT)
+    dG = cls('G', tps=[TP('T')])
+    dK = cls('K', [dG.get_type().new([dB.get_type()])], tps=[TP('T')])
+    dP = cls('P', tps=[TP('T', CO)])
+    bts = []
+    for t in f.get_non_nothing_types():
+        if isinstance(t, tp.TypeConstructor):
+            t = t.new([String])
+        bts.append(t)
+    Gd = dG.get_type()
+    Pd = dP.get_type()
+    tabs.append(dict(name='decls', types=[dA, dB, dI, dJ, dAb, dG, dK, dP] + bts,
+                     queries=[dA.get_type(), dB.get_type(), dI.get_type(), dJ.get_type(), dAb.get_type(),
+                              Gd.new([dB.get_type()]), Gd.new([String]), dK.get_type().new([String]),
+                              Pd.new([dA.get_type()]), Pd.new([Number]), Number, String, Any] +
+                     tvars(None, dA.get_type(), Gd.new([dB.get_type()]), dI.get_type())))
+    for t in tabs:
+        t['lang'] = lang
+        t['factory'] = f
+        t['top'] = norm(Any)
+    return tabs
+
+
+def judge(kind, table, T, res, flags):
+    if kind == 'sub':
+        return check_subtypes(table, T, res, flags.get('include_self', False), flags.get('concrete_only', False))
+    return check_irrelevant(table, T, res)
+
+
+def call_real(kind, T, types, flags, factory):
+    if kind == 'sub':
+        return M.orig['find_subtypes'](T, types, **flags)
+    return M.orig['find_irrelevant_type'](T, types, factory)
+
+
+FUNC = {'sub': 'src.ir.type_utils.find_subtypes', 'irr': 'src.ir.type_utils.find_irrelevant_type'}
+
+
+class Acc:
+    """accumulates the result dict"""
+
+    def __init__(self, stop_first):
+        self.evals = 0
+        self.undecided = 0
+        self.exceptions = {}
+        self.nontrivial = set()
+        self.violations = {}
+        self.counts = {}
+        self.samples = []
+        self.stop_first = stop_first
+        self.capped = 0
+        self.queries = 0
+        self.parts = {}
+
+    def add(self, part, n=1):
+        self.parts[part] = self.parts.get(part, 0) + n
+
+    def violation(self, name, rec):
+        chk = 'bounded[%s]' % name
+        self.counts[chk] = self.counts.get(chk, 0) + 1
+        if chk not in self.violations:
+            self.violations[chk] = dict(rec, check=chk)
+            return True
+        return False
+
+    @property
+    def done(self):
+        return self.stop_first and bool(self.violations)
+
+
+def eval_query(acc, part, kind, table, tab_id, qi, T, types, flags, factory, cap, extra, rnd):
+    """all random paths of one query; returns nothing, fills acc"""
+    acc.queries += 1
+    key = (part, tab_id, kind, qi, tuple(sorted(flags.items())))
+    for path, res, exc in all_paths(lambda: call_real(kind, T, types, flags, factory), cap, extra, rnd):
+        if path == 'end':
+            if not res:
+                acc.capped += 1
+            break
+        acc.evals += 1
+        acc.add(part)
+        if exc is not None:
+            k = '%s: %s' % (type(exc).__name__, str(exc)[:60])
+            acc.exceptions.setdefault(k, dict(count=0, first=dict(table=str(tab_id), kind=kind, query=str(T),
+                                                                    flags=flags, path=path)))['count'] += 1
+            continue
+        bad, und = judge(kind, table, T, res, flags)
+        acc.undecided += und
+        nontriv = (kind == 'sub' and len(res) > (1 if flags.get('include_self') else 0)) or \
+                  (kind == 'irr' and res is not None)
+        if nontriv:
+            acc.nontrivial.add(key)
+        for name, detail in bad:
+            rec = dict(function=FUNC[kind], part=part, table=tab_id, search=kind, query_index=qi, query=show(norm(T)),
+                       flags=dict(flags), path=list(path), **detail)
+            acc.violation(name, rec)
+        if acc.done:
+            M.chooser.record()
+            return
+        if nontriv and len(acc.samples) < 4 and len(path) >= 2 and not bad and part == 'A':
+            if not any(s['table'] == tab_id for s in acc.samples):
+                acc.samples.append(dict(table=tab_id, search=kind, T=show(norm(T)), flags=dict(flags),
+                                        returned=[show(norm(r)) for r in res] if kind == 'sub' else show(norm(res))))
+
+
+A_TABLES = ['simple', 'generic', 'variance', 'bounds', 'nested', 'arrays', 'decls']
+
+
+def irr_types(types):
+    """the irrelevant-type search is handed a class table (classes, generic classes, built-ins): no type variables"""
+    return [t for t in types if not isinstance(t, M.tp.TypeParameter)]
+
+
+def part_a_task(tier, lang, tname, seed, stop_first=False, only=None):
+    acc = Acc(stop_first)
+    cap, extra = (40, 40) if tier == 'quick' else (1000, 500)
+    rnd = _pyrandom.Random(seed * 31 + A_TABLES.index(tname))
+    tab = [t for t in fixed_tables(lang) if t['name'] == tname][0]
+    table = Table(tab['types'], tab['top'])
+    tid = '%s/%s' % (lang, tab['name'])
+    for qi, T in enumerate(tab['queries']):
+        if only is not None and qi != only:
+            continue
+        for flags in SUB_FLAGS:
+            eval_query(acc, 'A', 'sub', table, tid, qi, T, tab['types'], flags, None, 4000, extra, rnd)
+            if acc.done:
+                return acc
+        eval_query(acc, 'A', 'irr', table, tid, qi, T, irr_types(tab['types']), {}, tab['factory'], cap, extra, rnd)
+        if acc.done:
+            return acc
+    return acc
+
+
+# =====================================================================================================================
+# 6. part B: random class tables
+# =====================================================================================================================
+def random_table(table_seed, lang):
+    """a small random class table with well-formed random query types; everything is drawn from Random(table_seed)"""
+    rnd = _pyrandom.Random(table_seed)
+    tp = M.tp
+    f = M.factories[lang]
+    Any, Number, Integer, String = f.get_any_type(), f.get_number_type(), f.get_integer_type(), f.get_string_type()
+    builtins = [Any, Number, Integer, String]
+    top = norm(Any)
+    simple, generic = [], []
+    CO, CONTRA, INV = tp.Covariant, tp.Contravariant, tp.Invariant
+
+    def table():
+        return Table(simple + generic + builtins, top)
+
+    def closed_pool():
+        return simple + [Number, Integer, String]
+
+    def fits(tab, arg, bound, m):
+        if bound is None:
+            return True
+        try:
+            x = norm(arg)
+            if x[0] == 'W':
+                if x[1] != 1:
+                    return True
+                x = x[2]
+            return tab.sub(x, subst(norm(bound), m))
+        except Undecided:
+            return False
+
+    def inst(con, pool, own=(), project=0.0):
+        """instantiate con with arguments from pool (+ own type parameters where the variance allows)"""
+        tab = table()
+        args, m = [], {}
+        for p in con.type_parameters:
+            cands = list(pool)
+            for o in own:
+                if o.variance == INV or o.variance == p.variance:
+                    cands.append(o)
+            cands = [a for a in cands if fits(tab, a, p.bound, m)]
+            if not cands:
+                return None
+            a = rnd.choice(cands)
+            if project and p.variance == INV and not a.is_type_var() and rnd.random() < project:
+                a = tp.WildCardType(a, rnd.choice([CO, CO, CONTRA]))
+            args.append(a)
+            m[p.name] = norm(a)
+        return con.new(args)
+
+    n_classes = rnd.randint(5, 8)
+    for i in range(n_classes):
+        name = 'K%d' % i
+        if rnd.random() < 0.55 or i == 0:
+            r = rnd.random()
+            sup = []
+            if r < 0.1:
+                sup = [Any]
+            elif r < 0.45 and simple:
+                sup = [rnd.choice(simple)]
+            elif r < 0.7 and generic:
+                s = inst(rnd.choice(generic), closed_pool())
+                sup = [s] if s is not None else []
+            simple.append(tp.SimpleClassifier(name, sup))
+        else:
+            params = []
+            for j in range(rnd.choice([1, 1, 2])):
+                var = rnd.choice([INV, INV, INV, INV, CO, CO, CONTRA])
+                r = rnd.random()
+                bound = None
+                if r < 0.2:
+                    bound = rnd.choice(closed_pool())
+                elif r < 0.4 and params and var == INV:
+                    bound = params[0]
+                elif r < 0.5 and generic:
+                    bound = inst(rnd.choice(generic), closed_pool(), own=[q for q in params if q.variance == INV])
+                params.append(tp.TypeParameter('T%d' % j, var, bound))
+            r = rnd.random()
+            sup = []
+            if r < 0.2 and simple:
+                sup = [rnd.choice(simple)]
+            elif r < 0.65 and generic:
+                s = inst(rnd.choice(generic), closed_pool(), own=params)
+                sup = [s] if s is not None else []
+            generic.append(tp.TypeConstructor(name, params, sup))
+    queries = list(simple) + [Number, Integer]
+    pool = closed_pool()
+    for g in generic:
+        for _ in range(3):
+            q = inst(g, pool + [x for x in queries if x.is_parameterized()][:4], project=0.35)
+            if q is not None and norm(q) not in [norm(x) for x in queries]:
+                queries.append(q)
+    for i in range(3):
+        queries.append(tp.TypeParameter('E%d' % i, bound=rnd.choice(queries[:len(queries) - i])))
+    scope = [tp.TypeParameter('Z', bound=rnd.choice(simple))] if rnd.random() < 0.5 else []
+    types = simple + generic + builtins
+    rnd.shuffle(types)
+    return dict(name='random#%d' % table_seed, lang=lang, factory=f, top=top, types=types, scope=scope, queries=queries)
+
+
+def part_b_task(tier, lang, table_seed, stop_first=False):
+    acc = Acc(stop_first)
+    tab = random_table(table_seed, lang)
+    rnd = _pyrandom.Random(table_seed * 7919 + 1)
+    cap, extra = (25, 15) if tier == 'quick' else (150, 60)
+    tid = '%s/%s' % (lang, tab['name'])
+    table = Table(tab['types'], tab['top'])
+    for qi, T in enumerate(tab['queries']):
+        for flags in rnd.sample(SUB_FLAGS, 3):
+            eval_query(acc, 'B', 'sub', table, tid, qi, T, tab['types'] + tab['scope'], flags, None, cap, extra, rnd)
+            if acc.done:
+                return acc
+        eval_query(acc, 'B', 'irr', table, tid, qi, T, irr_types(tab['types']), {}, tab['factory'], cap, extra, rnd)
+        if acc.done:
+            return acc
+    return acc
+
+
+# =====================================================================================================================
+# 7. part C: the queries the generator and the type-overwriting mutation issue
+# =====================================================================================================================
+def slim_types(types):
+    """class declarations without their bodies (the searches only read name / kind / type parameters / supertypes)"""
+    ast = M.ast
+    out = []
+    for t in types:
+        if isinstance(t, ast.ClassDeclaration):
+            d = ast.ClassDeclaration(t.name, [], class_type=t.class_type, fields=[], functions=[],
+                                     is_final=t.is_final, type_parameters=list(t.type_parameters))
+            d.supertypes = list(t.supertypes)
+            t = d
+        out.append(t)
+    return out
+
+
+def encode_input(T, types, factory_lang):
+    return base64.b64encode(pickle.dumps((T, types, factory_lang), protocol=4)).decode('ascii')
+
+
+def decode_input(s):
+    return pickle.loads(base64.b64decode(s.encode('ascii')))
+
+
+def replay_pickled(fi):
+    """-> list of check names violated on the recorded (pickled) input with the recorded random path"""
+    T, types, lang = decode_input(fi['input_pickle'])
+    f = M.factories[lang]
+    table = Table(types, norm(f.get_any_type()))
+    kind = fi['search']
+    flags = dict(fi.get('flags') or {})
+    M.chooser.start(fi.get('path') or ())
+    try:
+        res = call_real(kind, T, types, flags, f)
+    finally:
+        M.chooser.record()
+    bad, _ = judge(kind, table, T, res, flags)
+    return [b[0] for b in bad], bad
+
+
+def part_c_task(tier, lang, seed, verif_seed, stop_first=False):
+    import copy
+    acc = Acc(stop_first)
+    utils, tu = M.utils, M.tu
+    f = M.factories[lang]
+    top = norm(f.get_any_type())
+    R = 1 if tier == 'quick' else 6            # extra random states per issued query ...
+    RN = 80 if tier == 'quick' else 400        # ... for the first RN issued queries of a run (the rest: as issued only)
+    K = 3 if tier == 'quick' else 12           # mutation runs per program
+    rnd = _pyrandom.Random((verif_seed * 1000003 + seed) * 4 + ['kotlin', 'java', 'groovy', 'scala'].index(lang))
+    depth = [0]
+    callno = [0]
+    tid = '%s/seed%d' % (lang, seed)
+    _NODE_COUNTER[0] = 0
+
+    def observe(kind, T, types, flags, res, path, who):
+        acc.evals += 1
+        acc.add('C')
+        table = Table(types, top)
+        try:
+            bad, und = judge(kind, table, T, res, flags)
+        except RecursionError:
+            acc.undecided += 1
+            return
+        acc.undecided += und
+        if (kind == 'sub' and len(res) > (1 if flags.get('include_self') else 0)) or (kind == 'irr' and res is not None):
+            acc.nontrivial.add(('C', tid, callno[0]))
+        for name, detail in bad:
+            chk = 'bounded[%s]' % name
+            acc.counts[chk] = acc.counts.get(chk, 0) + 1
+            if chk in acc.violations:
+                continue
+            rec = dict(function=FUNC[kind], part='C', table=tid, search=kind, issued_by=who, call=callno[0],
+                       query=show(norm(T)), flags=dict(flags), path=list(path), check=chk, **detail)
+            for ty in (slim_types(types), types):
+                try:
+                    rec['input_pickle'] = encode_input(T, ty, lang)
+                    if name in replay_pickled(rec)[0]:
+                        break
+                except Exception:
+                    continue
+            acc.violations[chk] = rec
+
+    def wrapper(kind, who):
+        orig = M.orig['find_subtypes' if kind == 'sub' else 'find_irrelevant_type']
+
+        def run(T, types, flags, factory):
+            if kind == 'sub':
+                return orig(T, types, **flags)
+            return orig(T, types, factory)
+
+        def body(T, types, flags, factory):
+            if depth[0] > 0:
+                return run(T, types, flags, factory)
+            depth[0] += 1
+            callno[0] += 1
+            acc.queries += 1
+            ch = M.chooser
+            try:
+                ch.record()
+                res = run(T, types, flags, factory)
+                path = [i for i, _ in ch.trace]
+                observe(kind, T, types, flags, res, path, who[0])
+                for _ in range(R if callno[0] <= RN else 0):
+                    if acc.done:
+                        break
+                    ch.start((), rnd)
+                    try:
+                        r2 = run(T, types, flags, factory)
+                    except Exception as e:
+                        k = '%s: %s' % (type(e).__name__, str(e)[:60])
+                        acc.exceptions.setdefault(k, dict(count=0, first=dict(table=tid, kind=kind, query=str(T))))['count'] += 1
+                        continue
+                    observe(kind, T, types, flags, r2, [i for i, _ in ch.trace], who[0])
+                return res
+            finally:
+                ch.record()
+                depth[0] -= 1
+        if kind == 'sub':
+            def find_subtypes(etype, types, include_self=False, bound=None, concrete_only=False,
+                              ignore_variance=False):
+                return body(etype, types, dict(include_self=include_self, concrete_only=concrete_only,
+                                               ignore_variance=ignore_variance), None)
+            return find_subtypes
+
+        def find_irrelevant_type(etype, types, factory):
+            return body(etype, types, {}, factory)
+        return find_irrelevant_type
+    who = ['generator']
+    tu.find_subtypes = wrapper('sub', who)
+    tu.find_irrelevant_type = wrapper('irr', who)
+    old_limit = sys.getrecursionlimit()
+    sys.setrecursionlimit(max(old_limit, 5000))
+    try:
+        from src.generators.generator import Generator
+        from src.transformations.type_overwriting import TypeOverwriting
+        from src.transformations.type_erasure import TypeErasure
+        utils.random.r.seed(seed)
+        utils.random.reset_word_pool()
+        try:
+            prog = Generator(language=lang).generate()
+        except Exception as e:      # a failing generator run is C18's business; what was issued before is still judged
+            prog = None
+            k = 'generator %s: %s' % (type(e).__name__, str(e)[:50])
+            acc.exceptions.setdefault(k, dict(count=0, first=dict(table=tid)))['count'] += 1
+        who[0] = 'type-overwriting'
+        for k in range(K if prog is not None else 0):
+            if acc.done:
+                break
+            try:
+                p2 = copy.deepcopy(prog)
+                utils.random.r.seed(seed * 1000 + k)
+                if k % 2:
+                    te = TypeErasure(p2, lang, None, {'timeout': 600})
+                    te.transform()
+                    p2 = te.result()
+                to = TypeOverwriting(p2, lang, None, {'timeout': 600})
+                to.transform()
+            except Exception as e:
+                kk = 'mutation %s: %s' % (type(e).__name__, str(e)[:50])
+                acc.exceptions.setdefault(kk, dict(count=0, first=dict(table=tid, k=k)))['count'] += 1
+    finally:
+        tu.find_subtypes = M.orig['find_subtypes']
+        tu.find_irrelevant_type = M.orig['find_irrelevant_type']
+        sys.setrecursionlimit(old_limit)
+        M.chooser.record()
+    return acc
+
+
+# =====================================================================================================================
+# 8. driver
+# =====================================================================================================================
+LANGS = ['kotlin', 'java', 'groovy', 'scala']
+C_SEEDS = {'quick': 2, 'thorough': 40}          # fixed generator seeds 0..n-1 per language (extended by VERIF_SEED)
+B_TABLES = {'quick': 16, 'thorough': 400}
+
+
+def plan(tier, seed):
+    tasks = []
+    if tier == 'quick':
+        for tn in A_TABLES:
+            tasks.append(('A', 'kotlin', tn))
+        for tn in ('generic', 'arrays', 'decls'):
+            tasks.append(('A', 'java', tn))
+    else:
+        for lang in LANGS:
+            for tn in A_TABLES:
+                tasks.append(('A', lang, tn))
+    nb = B_TABLES[tier]
+    for i in range(nb):
+        # half of the tables are fixed, half depend on VERIF_SEED
+        ts = i if i % 2 == 0 else (seed + 1) * 100000 + i
+        tasks.append(('B', LANGS[i % 2] if tier == 'quick' else LANGS[i % 4], ts))
+    for s in range(C_SEEDS[tier]):
+        for lang in LANGS:
+            tasks.append(('C', lang, s))
+    if seed:
+        for lang in LANGS:
+            tasks.append(('C', lang, 100000 + seed))
+    return tasks
+
+
+def _task(args):
+    tier, seed, stop_first, t = args
+    t0 = time.time()
+    if t[0] == 'A':
+        acc = part_a_task(tier, t[1], t[2], seed, stop_first)
+    elif t[0] == 'B':
+        acc = part_b_task(tier, t[1], t[2], stop_first)
+    else:
+        acc = part_c_task(tier, t[1], t[2], seed, stop_first)
+    return dict(task=t, evals=acc.evals, undecided=acc.undecided, exceptions=acc.exceptions,
+                nontrivial=sorted(acc.nontrivial, key=repr), violations=acc.violations, counts=acc.counts,
+                samples=acc.samples, capped=acc.capped, queries=acc.queries, parts=acc.parts,
+                seconds=round(time.time() - t0, 2))
+
+
+def run(tier, seed, stop_first=False, workers=None):
+    """bounded stand-in for C09; see the module docstring"""
+    import multiprocessing
+    t0 = time.time()
+    tasks = plan(tier, seed)
+    if workers is None:
+        workers = int(os.environ.get('C09_WORKERS', '0')) or (6 if tier == 'quick' else 14)
+    workers = max(1, min(workers, os.cpu_count() or 1))
+    jobs = [(tier, seed, stop_first, t) for t in tasks]
+    results = []
+    # one fresh forked process per task: no state of the tree under verification leaks from one task into the next
+    pool = multiprocessing.get_context('fork').Pool(workers, maxtasksperchild=1)
+    it = pool.imap(_task, jobs, chunksize=1)
+    budget = float(os.environ.get('C09_BUDGET', '0')) or (48.0 if tier == 'quick' else 780.0)
+    truncated = False
+    try:
+        for r in it:
+            results.append(r)
+            if stop_first and r['violations']:
+                break
+            if time.time() - t0 > budget and len(results) < len(jobs):
+                truncated = True        # wall-clock guard (loaded machine): the remaining tasks are not run
+                break
+    finally:
+        if pool is not None:
+            pool.terminate()
+            pool.join()
+    evals = sum(r['evals'] for r in results)
+    nontrivial = set()
+    violations, counts, exceptions, parts = {}, {}, {}, {}
+    samples = []
+    for r in results:                 # task order: A (hand-written, smallest inputs) first, then B, then C
+        nontrivial.update(map(tuple, r['nontrivial']))
+        for k, v in r['violations'].items():
+            violations.setdefault(k, v)
+        for k, v in r['counts'].items():
+            counts[k] = counts.get(k, 0) + v
+        for k, v in r['exceptions'].items():
+            e = exceptions.setdefault(k, dict(count=0, first=v['first']))
+            e['count'] += v['count']
+        for k, v in r['parts'].items():
+            parts[k] = parts.get(k, 0) + v
+        for smp in r['samples']:
+            if len(samples) < 4:
+                samples.append(smp)
+    na = len([t for t in tasks if t[0] == 'A'])
+    nb = len([t for t in tasks if t[0] == 'B'])
+    nc = len([t for t in tasks if t[0] == 'C'])
+    capped = sum(r['capped'] for r in results)
+    rule = (
+        'contract of find_subtypes / find_irrelevant_type evaluated on the real functions against an independent declarative '
+        'subtype relation (specs/search_ref.py: nominal class table keyed by class names, Kotlin/Java argument containment, '
+        'X <: T iff X = T or bound(X) <: T; primitive types related to themselves only).  '
+        'Part A: %d hand-written class tables (7 shapes: plain hierarchy, invariant generics incl. generic subclass of an '
+        'instantiation, declaration-site variance, bounded parameters incl. T2 : T1, nested arguments with in-scope type '
+        'variables, arrays / function types / primitives, class declarations with interface and abstract classes) x every '
+        'query type of the table x all 8 combinations of include_self / concrete_only / ignore_variance, and the irrelevant '
+        'search on every query type (incl. type variables with absent / top / class / parameterized / variable bound, and the '
+        'top type): ALL random paths inside the search enumerated depth-first (utils.random.choice replaced by a path '
+        'enumerator) up to a cap, capped queries topped up with random paths (%d queries were capped).  '
+        'Part B: %d random class tables (5-8 classes, bounds, variance, generic subclasses; half fixed, half from VERIF_SEED) '
+        'with random well-formed query types, 3 flag combinations each.  '
+        'Part C: every find_subtypes / find_irrelevant_type call issued by the generator and by the type-overwriting mutation '
+        '(alone and after type erasure) on %d generator runs (fixed seeds x 4 languages, default configuration), each issued '
+        'query re-evaluated with further random states.  '
+        'Checks: subtypes:self (T in result iff include_self), subtypes:usable (no bare generic class at top level when '
+        'concrete_only, never as a nested argument, arity, arguments within declared bounds when T itself is well-formed), '
+        'subtypes:sound (every element, a bare generic class taken as its instantiation with its own parameters, is below T), '
+        'irrelevant:top-returns-nothing, irrelevant:{subtype,supertype,same-type}-returned (against T; for a type variable with a '
+        'non-top bound against the bound; for a variable without bound / with the top bound against the variable itself, '
+        'because every type is below top and the clause "of its bound" cannot be satisfied by any returned type).  The type '
+        'list of the irrelevant search contains no type variables (class table).  Inputs on which the declarative relation '
+        'is not defined (capture conversion of nested projections, conflicting projections, two declarations with one '
+        'name) are counted as undecided, exceptions raised by the search are counted separately (C18), neither is judged.  '
+        'Non-trivial: distinct (table, search, query, flags) resp. (language, seed, call) whose result contains a type other '
+        'than T resp. is not None.' % (na, capped, nb, nc))
+    return dict(evaluations=evals, distinct_nontrivial=len(nontrivial), rule=rule, samples=samples,
+                violations=[violations[k] for k in sorted(violations)], violation_counts=dict(sorted(counts.items())),
+                undecided=sum(r['undecided'] for r in results), exceptions=exceptions, by_part=parts,
+                queries=sum(r['queries'] for r in results), exhaustive=False,
+                tasks=len(results), tasks_planned=len(jobs), truncated=truncated,
+                seconds=round(time.time() - t0, 1), workers=workers)
+
+
+def replay(fi):
+    """re-execute a recorded failing input on the current tree: True if the property holds on it"""
+    kind = fi['search']
+    flags = dict(fi.get('flags') or {})
+    if fi.get('part') == 'C':
+        names, bad = replay_pickled(fi)
+        for b in bad:
+            print('%s: %s' % (b[0], b[1]))
+        return not bad
+    lang, tname = fi['table'].split('/')
+    if fi['part'] == 'A':
+        tab = [t for t in fixed_tables(lang) if t['name'] == tname][0]
+        types = tab['types']
+    else:
+        tab = random_table(int(tname.split('#')[1]), lang)
+        types = tab['types'] + (tab['scope'] if kind == 'sub' else [])
+    if kind == 'irr':
+        types = irr_types(types)
+    T = tab['queries'][fi['query_index']]
+    table = Table(tab['types'], tab['top'])
+    # 1. the recorded random path  2. every random path of the recorded query (robust against a shifted path)
+    M.chooser.start(fi.get('path') or ())
+    try:
+        res = call_real(kind, T, types, flags, tab['factory'])
+        bad, _ = judge(kind, table, T, res, flags)
+    except Exception as e:
+        print('recorded path raises %s: %s' % (type(e).__name__, e))
+        bad = []
+    finally:
+        M.chooser.record()
+    if not bad:
+        acc = Acc(True)
+        eval_query(acc, fi['part'], kind, table, fi['table'], fi['query_index'], T, types, flags, tab['factory'],
+                   3000, 500, _pyrandom.Random(0))
+        bad = [(v['check'], v) for v in acc.violations.values()]
+    for b in bad[:3]:
+        print('%s %s on %s (table %s): %s' % (FUNC[kind], flags or '', show(norm(T)), fi['table'], b))
+    return not bad
